@@ -374,11 +374,15 @@ def rp_refetch_path(ctx, alg):
             return self.server_metadata
 
     variants = [("match", "rp1", "n1", at, True), ("nonce", "rp1", "n1x", at, False), ("nonce-prefix", "rp1", "n", at, False), ("client", "rp2", "n1", at, False),
-                ("client-contained", "rp", "n1", at, False), ("access-token", "rp1", "n1", at + "x", False)]
+                ("client-contained", "rp", "n1", at, False), ("access-token", "rp1", "n1", at + "x", False),
+                # the default issuer check (the metadata's issuer) holds on the second decoding as on the first
+                ("issuer", "rp1", "n1", at, False), ("issuer-prefix", "rp1", "n1", at, False)]
+    tok_of = {"issuer": _jwt.encode({"alg": alg, "kid": "k2"}, dict(claims, iss="https://evil.example"), sign_b).decode(),
+              "issuer-prefix": _jwt.encode({"alg": alg, "kid": "k2"}, dict(claims, iss=ISS[:-1]), sign_b).decode()}
     for flavour in ("sync", "async"):
         for lab, client, nonce, atok, want in variants:
             rp = SyncRP(client) if flavour == "sync" else AsyncRP(client)
-            token = {"id_token": tok_b, "access_token": atok}
+            token = {"id_token": tok_of.get(lab, tok_b), "access_token": atok}
             try:
                 if flavour == "sync":
                     rp.parse_id_token(token, nonce, leeway=120)
@@ -395,6 +399,53 @@ def rp_refetch_path(ctx, alg):
                               "after the relying party had to fetch the provider's key set again, an ID Token was %s although %s" %
                               ("accepted" if ok else "refused", "its %s differs" % lab if not want else "everything matches"), case)
 
+    # which key of the provider's set verifies: the one the header's kid names; a kid that is present but names no key ("" included)
+    # is an unknown kid even when the set has a single key; without a kid the single key of the set is used
+    for flavour in ("sync", "async"):
+        for lab, hdr_kid, want in (("kid-right", "k2", True), ("kid-absent-single-key", None, True), ("kid-empty", "", False), ("kid-other", "k1", False),
+                                   ("kid-zero", 0, False), ("kid-false", False, False)):
+            hdr = {"alg": alg} if hdr_kid is None else {"alg": alg, "kid": hdr_kid}
+            tk = _jwt.encode(hdr, claims, sign_b).decode()
+            rp = SyncRP("rp1") if flavour == "sync" else AsyncRP("rp1")
+            rp.server_metadata["jwks"] = {"keys": [jwk_b]}
+            try:
+                if flavour == "sync":
+                    rp.parse_id_token({"id_token": tk, "access_token": at}, "n1", leeway=120)
+                else:
+                    asyncio.run(rp.parse_id_token({"id_token": tk, "access_token": at}, "n1", leeway=120))
+                ok = True
+            except (JoseError, ValueError):
+                ok = False
+            case = {"rp_refetch": alg, "flavour": flavour, "variant": lab}
+            ctx.case(case, ("rp-kid", alg, flavour, lab), "rp-kid:%s:%s" % (flavour, lab))
+            if ok != want:
+                ctx.violation("C13:rp-kid:%s:%s:%s" % (flavour, lab, "accepted" if ok else "refused"),
+                              "an ID Token whose header kid is %r was %s by a relying party whose provider publishes the single key 'k2'" %
+                              (hdr_kid, "accepted" if ok else "refused"), case)
+    # two providers in one process that use the SAME kid for different keys: each relying party verifies with its own provider's key
+    tok_a2 = _jwt.encode({"alg": alg, "kid": "same"}, claims, priv_a).decode()
+    tok_b2 = _jwt.encode({"alg": alg, "kid": "same"}, claims, sign_b).decode()
+    for flavour in ("sync", "async"):
+        rps = {}
+        for name, jwk in (("A", jwk_a), ("B", jwk_b)):
+            rp = SyncRP("rp1") if flavour == "sync" else AsyncRP("rp1")
+            rp.server_metadata["jwks"] = {"keys": [dict(jwk, kid="same")]}
+            rps[name] = rp
+        for step, (who, tk, want) in enumerate((("A", tok_a2, True), ("B", tok_a2, False), ("B", tok_b2, True), ("A", tok_b2, False), ("A", tok_a2, True))):
+            try:
+                if flavour == "sync":
+                    rps[who].parse_id_token({"id_token": tk, "access_token": at}, "n1", leeway=120)
+                else:
+                    asyncio.run(rps[who].parse_id_token({"id_token": tk, "access_token": at}, "n1", leeway=120))
+                ok = True
+            except (JoseError, ValueError):
+                ok = False
+            case = {"rp_refetch": alg, "flavour": flavour, "variant": "two-providers-step-%d" % step}
+            ctx.case(case, ("rp-two", alg, flavour, step), "rp-two-providers:%s" % flavour)
+            if ok != want:
+                ctx.violation("C13:rp-two-providers:%s:%s" % (flavour, "accepted" if ok else "refused"),
+                              "with two providers that publish different keys under the same kid, relying party %s %s a token signed by %s key" %
+                              (who, "accepted" if ok else "refused", "the other provider's" if not want else "its own provider's"), case)
     # the leeway the application passes to the relying-party entry point is the leeway that is applied: the clock moves
     # around exp and iat, the leeway is 0, small, the default (120 s, also when omitted) or large
     real = time.time
